@@ -26,7 +26,7 @@ deriving DecidableEq, Repr
 /-- faults `Protocol.read_message` raises by itself, in any state: header checks of the reader,
     decode of the body (`Message.unpack`, and `Update.data` forced by `read_message`). -/
 inductive Fault where
-  | badMarker | badLength | tooLong | unknownType | kaLen | rrLen | notifLen | openShort
+  | badMarker | badLength | tooLong | unknownType | kaLen | rrLen | openShort
   | openVersion | openOptParam
   | updAttrLen | updNlri
 deriving DecidableEq, Repr
@@ -131,7 +131,6 @@ def raised : Fault → Nat × Nat
   | .unknownType => (1, 3)
   | .kaLen => (1, 2)
   | .rrLen => (1, 2)
-  | .notifLen => (1, 2)
   | .openShort => (1, 2)
   | .openVersion => (2, 1)
   | .openOptParam => (2, 4)
@@ -274,6 +273,8 @@ def mainIter (m : Option Msg) (s : State) : R :=
   match m with
   | some (.bad f) => onNotify (raised f).1 (raised f).2 s
   | some .notification => onNotification s
+  | some (.openOk _) => onNotify 5 3 s
+  | some (.openSem _) => onNotify 5 3 s
   | _ =>
     if s.cfg.hold0 ∧ m = some .keepalive ∧ s.kaSeen then onNotify 2 6 s
     else mainTail (mainPre m s)
@@ -357,8 +358,10 @@ def fuelOf (s : State) : Nat :=
   | some k => k.inbox.length + 2
   | none => 0
 
-/-- `handle_connection` refuses: ESTABLISHED, or OPENCONFIRM and the peer's identifier is the lower one. -/
+/-- `handle_connection` refuses: `stop()` ran (`_restart` False and `_teardown` set), ESTABLISHED,
+    or OPENCONFIRM and the peer's identifier is the lower one. -/
 def refuses (s : State) : Bool :=
+  (!s.restart && s.teardown.isSome) ||
   s.fsm == .established ||
   (s.fsm == .openconfirm && (match s.conn with | some k => k.idLow | none => false))
 
@@ -466,7 +469,7 @@ inductive Cause where
   | unexpected (m : Msg)     -- a well-formed message the state does not allow
   | operational              -- a message type whose capability was not negotiated
   | holdTimer                -- hold timer (established or openconfirm)
-  | openTimer                -- the "large" hold timer of OpenSent (openwait)
+  | openTimer                -- the configured wait for the peer's OPEN (openwait): the fixed text of C12 makes it 5/1
   | cease (code : Nat)       -- API teardown / stop
   | keepaliveHold0           -- KEEPALIVE although the negotiated hold time is 0
 deriving DecidableEq, Repr
@@ -490,7 +493,6 @@ def errorClass (c : Cause) (st : Fsm) : List (Nat × Nat) :=
   | .fault .badLength | .fault .tooLong | .fault .kaLen | .fault .openShort => [(1, 2)]
   | .fault .rrLen => [(1, 2), (7, 1)]
   | .fault .unknownType => [(1, 3)]
-  | .fault .notifLen => []
   | .fault .openVersion => if st = .opensent then [(2, 1)] else [(2, 1)] ++ unexp
   | .fault .openOptParam => if st = .opensent then [(2, 4)] else [(2, 4)] ++ unexp
   | .fault .updAttrLen => if st = .established then [(3, 1)] else [(3, 1)] ++ unexp
@@ -501,7 +503,7 @@ def errorClass (c : Cause) (st : Fsm) : List (Nat × Nat) :=
   | .unexpected _ => unexp
   | .operational => [(1, 3)] ++ unexp
   | .holdTimer => [(4, 0)]
-  | .openTimer => [(4, 0)]
+  | .openTimer => [(5, 1)]
   | .cease _ => [(6, 1), (6, 2), (6, 3), (6, 4), (6, 5), (6, 6), (6, 7), (6, 8), (6, 9), (6, 10)]
   | .keepaliveHold0 => [(2, 6)] ++ unexp
 
